@@ -9,14 +9,14 @@ def _q(prop, what, ref):
     return {
         "text": what + " Scenarios are replayed through the real engine (fallback disabled) and the pinned Prometheus engine on one instrumented storage; TLC validates every recorded result against PromQLRef's denotation (where the scenario is structural and PromQLRef is calibrated against Prometheus on it) and against the reference result (values up to rounding).",
         "design_ref": ref,
-        "note": "Trusted: Prometheus v0.40.1 as oracle, the vstore storage, the Go comparator (1e-9 relative tolerance), the scenario printer/parser round trip; scope bounded by the tier constants of the generator modules; scenarios with topk/bottomk ties are excluded from the reference comparison (order dependent in the reference).",
+        "note": "Every fourth plan-based scenario is replayed at a present-day time base (times in traces are relative to it). Trusted: Prometheus v0.40.1 as oracle, the vstore storage, the Go comparator (1e-9 relative tolerance), the scenario printer/parser round trip; scope bounded by the tier constants of the generator modules; scenarios with topk/bottomk ties are excluded from the reference comparison (order dependent in the reference).",
         "technique": "TLA+ reference semantics (PromQLRef) + TLC scenario generation with model-level laws + replay into engine and Prometheus + TLC trace validation (QueryTrace)",
     }
 
 
 CHECKS = {
  "C01": _q("C01", "TLC enumerates every well-typed plan W2(W1(leaf)) [op W3(leaf')] over the alphabets of Gen_Compose.tla (ComposeLaw model-checked on all) and a Go generator adds seeded random expression trees over random irregular datasets whose expected outcome TLC computes during validation.", "DESIGN.md §6 C01"),
- "C03": _q("C03", "TLC enumerates sample layouts x value patterns x range x step x offset x @ x window (WindowLaw: sum_over_time over 2^t values is the membership bitmask of the closed window, model-checked on all), range function chosen by seeded hash, tick 1000 ms and 500 ms.", "DESIGN.md §6 C03"),
+ "C03": _q("C03", "TLC enumerates sample layouts x value patterns x range x step x offset x @ x window (WindowLaw: sum_over_time over 2^t values is the membership bitmask of the closed window, model-checked on all), range function chosen by seeded hash (four functions for the patterns with NaN / Inf / signed zeros), tick 1000 ms and 500 ms (there the samples lie two ticks apart and 23 steps of one tick cross two batch boundaries).", "DESIGN.md §6 C03"),
  "C04": _q("C04", "TLC enumerates label configurations x presence histories x step counts x NaN/Inf members (AggLaw model-checked on all); aggregator, grouping and parameter chosen by seeded hash.", "DESIGN.md §6 C04"),
  "C05": _q("C05", "TLC enumerates label configurations of two metrics x presence histories x step counts (BinLaw model-checked on all); operator, matching, cardinality/include, bool, scalar operands and wrappers chosen by seeded hash; the specification also names the reason for which the reference fails a step.", "DESIGN.md §6 C05"),
  "C06": _q("C06", "TLC enumerates presence histories x value domains x step counts 1..101 x lookbacks (FuncLaw model-checked on all); 40 expression shapes over all native functions, scalars, unary minus and @-pinned parts chosen by seeded hash; Gen_Hist.tla enumerates histogram_quantile over 17 bucket layouts x presence histories x 9 quantiles x operand shapes (HistLaw model-checked; bucketQuantile transcribed in PromQLRef).", "DESIGN.md §6 C06"),
@@ -75,20 +75,20 @@ CHECKS = {
   "technique": "TLC-simulated histories of Session.tla replayed into one engine instance + trace validation by TLC (SessionTrace)",
  },
  "C12": {
-  "text": "Gen_Conc.tla enumerates client mixes (2..32 clients; same text / native basket / native+fallback / distributed / Cancel() racing with Exec); the replayer built with the Go race detector runs each query alone and then all clients concurrently on one engine and one storage under seeded yields; TLC validates SessionTrace.tla: every concurrent result equals the solo result (Agree), and every race report with an engine frame is a `race` event that no action accepts (RaceFree).",
+  "text": "Gen_Conc.tla enumerates client mixes (2..32 clients; same text / native basket / native+fallback / distributed / Cancel() racing with Exec / the very same query with every other client cancelling its own; per-client lookback deltas; explicit optimizer lists); the replayer built with the Go race detector runs each query alone and then all clients concurrently on one engine and one storage under seeded yields; TLC validates SessionTrace.tla: every concurrent result equals the solo result (Agree), and every race report with an engine frame is a `race` event that no action accepts (RaceFree).",
   "design_ref": "DESIGN.md §6 C12, §8",
   "note": "Trusted: the Go race detector as the sensor of unsynchronised accesses (only executed accesses are seen); seeded perturbation, not exhaustive interleavings.",
   "technique": "TLC-enumerated concurrency mixes replayed under the race detector + trace validation by TLC (SessionTrace: Agree, RaceFree)",
  },
  "C13": {
-  "text": "Fault enumeration bound to ExecTrace.tla: a runtime panic injected at every storage callback index k reached by the fault-free run, on whichever goroutine evaluates it, for plan shapes covering every operator (Gen_Fault.tla), in child processes; TLC validates PanicSurfaces / ExecReturns / no ProcessDead on the recorded life-cycle events. Crashes on extreme parameters / degenerate data found by the other checks' replays are attributed here as ProcessDead.",
+  "text": "Fault enumeration bound to ExecTrace.tla: a runtime panic injected at every storage callback index k reached by the fault-free run, on whichever goroutine evaluates it, for plan shapes covering every operator (Gen_Fault.tla), in child processes; TLC validates PanicSurfaces / ExecReturns / no ProcessDead on the recorded life-cycle events. Also: a panic after a cancellation (cancelpanic); the aggregation scenarios with extreme parameters, Optimizer.tla's selector pairs in 17 syntactic positions, a sample of every query family and the vocabulary of Gen_Fallback through the distributed engine are replayed in child processes (planning is part of the property). Crashes found by the other checks' replays are attributed here as ProcessDead.",
   "design_ref": "DESIGN.md §6 C13",
   "note": "Trusted: the child-process supervisor (a dead child identifies its scenario), the instrumented storage.",
   "technique": "fault enumeration (panic at k-th storage callback, also with lagging consumers; extreme parameters) in child processes + trace validation by TLC (ExecTrace, QueryTrace) + TLC model checking of Exec.tla",
   "category": "fault_enumeration",
  },
  "C14": {
-  "text": "Fault enumeration bound to ExecTrace.tla: cancellation inside the k-th storage callback for every k, a callback that blocks until cancelled, Query.Cancel() from another goroutine at seeded instants, against a context-honouring storage, for plan shapes covering every operator incl. distributed; TLC validates ExecReturns (5 s), CancelFinal (context error or the complete fault-free result) and NoLeak (goroutine census after Close).",
+  "text": "Fault enumeration bound to ExecTrace.tla: cancellation inside the k-th storage callback for every k, a callback that blocks until cancelled, Query.Cancel() from another goroutine at seeded instants (also on an engine whose active-query tracker has one slot while another query of the engine is blocked), against a context-honouring storage, for plan shapes covering every operator incl. distributed; TLC validates ExecReturns (5 s), CancelFinal (context error or the complete fault-free result) and NoLeak (goroutine census after Close).",
   "design_ref": "DESIGN.md §6 C14",
   "note": "Trusted: goroutine census via runtime.NumGoroutine with 3 s grace; interleavings are those the scheduler produces under the injected faults (not exhaustive).",
   "technique": "fault enumeration (cancel / block at k-th storage callback; Cancel(), Close() and deadlines at seeded instants; cancellation at every pass of every scheduling point, hook H2) + trace validation by TLC (ExecTrace) + TLC model checking of Exec.tla incl. liveness",
@@ -109,7 +109,7 @@ CHECKS = {
   "category": "fault_enumeration",
  },
  "C02": {
-  "text": "Exhaustive small-scope enumeration by TLC of sample layouts x lookback x per-query lookback x offset x @ x step x window (SelectionLaw model-checked on every enumerated scenario); boundary scenarios replayed through the real engine and Prometheus; each result validated by TLC against PromQLRef's denotation and the reference result.",
+  "text": "Exhaustive small-scope enumeration by TLC of sample layouts x lookback x per-query lookback x offset x @ x step x window x context (bare, aggregated, merged with a broader select, argument of timestamp()) (SelectionLaw model-checked on every enumerated scenario); boundary scenarios replayed through the real engine and Prometheus; each result validated by TLC against PromQLRef's denotation and the reference result.",
   "design_ref": "DESIGN.md §6 C02",
   "note": "Trusted: Prometheus v0.40.1 as oracle, the vstore iterator, the Go comparator (1e-9 relative tolerance), the scenario printer; scope bounded by the tier constants in Gen_Selector.tla.",
   "technique": "TLA+ reference semantics (PromQLRef) + TLC scenario generation + replay into engine + TLC trace validation (QueryTrace)",
